@@ -6,6 +6,7 @@ failing half-way.  Oracle: the fresh twin - the same call on objects built from 
 specs an instant before.  See DESIGN.md section 3.1.
 """
 import copy
+import os
 import json
 
 import numpy as np
@@ -229,6 +230,10 @@ def gen_scripts(rng, world, ctx):
         r = rng.random()
         p = _p(rng, ctx, g)
         if r < 0.35:
+            base_ = world["assets"][a]["kw"].get("base_asset")
+            if base_:
+                # a scaled asset hands timegrid=None on to its base asset: the user gives the grid to both
+                st.append({"op": "a.set_tg", "obj": base_["$asset"], "grid": g})
             st.append({"op": "a.set_tg", "obj": a, "grid": g})
             st.append({"op": "a.setup", "obj": a, "grid": None, "prices": p, "cast": _cast(rng, world, p), "costs_only": False})
         else:
@@ -743,9 +748,13 @@ class Exec:
     def do_setup(self, B, st, gid_eff, twin):
         o = B.obj(st["obj"])
         explicit = st.get("grid")
-        if explicit is None and twin and gid_eff not in (None, AMBIG):
-            self.twin_precondition(B, st["obj"], gid_eff)
         g = B.grid(explicit) if explicit is not None else None
+        if explicit is None and twin == "explicit":
+            # second reference of a timegrid=None call: fresh objects with the stored grid handed in (building a problem is a
+            # function of parameters, prices and grid - however the grid got there)
+            g = B.grid(gid_eff)
+        elif explicit is None and twin and gid_eff not in (None, AMBIG):
+            self.twin_precondition(B, st["obj"], gid_eff)
         prices = self.prices_for(B, st, gid_eff)
         if st["op"] == "a.setup":
             return o.setup_optim_problem(prices, g, costs_only=bool(st.get("costs_only")))
@@ -802,7 +811,7 @@ class Exec:
         return tw
 
     # ---- judged step
-    def judged(self, i, st, sys_fn, twin_fn, gid_eff, judge=True, rtol=None):
+    def judged(self, i, st, sys_fn, twin_fn, gid_eff, judge=True, rtol=None, twin2_fn=None):
         self.stats["calls"] += 1
         s = _call(lambda: sys_fn(self.B))
         ev = {"step": i, "op": st["op"], "client": st.get("client")}
@@ -835,6 +844,14 @@ class Exec:
                     canon.diff_canon(cs, canon.canon_op(t.val), rtol=rtol, atol=rtol)
                 if d:
                     v = {"clause": "twin-mismatch", "field": _field(d), "detail": d}
+                elif twin2_fn is not None:
+                    t2 = _call(lambda: twin2_fn(self.fresh_twin()))
+                    self.stats["none_vs_explicit_checked"] = self.stats.get("none_vs_explicit_checked", 0) + 1
+                    if t2.exc is None:
+                        d = canon.diff_canon(cs, canon.canon_op(t2.val))
+                        if d:
+                            v = {"clause": "stored-grid-differs-from-given-grid", "field": _field(d),
+                                 "detail": "set-up with the stored grid (timegrid=None) differs from the same set-up on fresh objects with that grid handed in: " + d}
             if v is not None:
                 v["step"] = i
                 v["op"] = st["op"] + ("(None)" if ("grid" in st and st.get("grid") is None) else "")
@@ -901,8 +918,9 @@ class Exec:
             judge = gid != AMBIG
             self.probes_before(st, gid)
             self.record_pair(st, gid)
+            twin2 = (lambda B: self.do_setup(B, st, gid, "explicit")) if (st.get("grid") is None and gid not in (None, AMBIG)) else None
             s = self.judged(i, st, lambda B: self.do_setup(B, st, gid, False), lambda B: self.do_setup(B, st, gid, True),
-                            gid, judge=judge)
+                            gid, judge=judge, twin2_fn=twin2)
             ok = s.exc is None
             if gid == AMBIG:
                 M.smear(st["obj"])
